@@ -240,7 +240,7 @@ def from_ctc_to_geff(
             name: {"values": np.asarray(values), "missing": None}
             for name, values in node_props.items()
         },
-        edge_ids=np.asarray(edges, dtype=node_ids.dtype),
+        edge_ids=np.asarray(edges, dtype=node_ids.dtype).reshape(-1, 2),
         edge_props={},
         metadata=GeffMetadata(
             geff_version=geff.__version__,
